@@ -6,14 +6,14 @@
 /// Check for `assertion`: ""column is bijective base-26 minus one""
 
 #[test]
-fn kani_concrete_playback_c01_q_a1_l1_d1_12897738365609403309() {
+fn kani_concrete_playback_c01_q_a1_l1_d1_17720547468351167581() {
     let concrete_vals: Vec<Vec<u8>> = vec![
-        // 15
-        vec![15],
+        // 23
+        vec![23],
         // 1
         vec![1],
-        // 1
-        vec![1],
+        // 9
+        vec![9],
     ];
     kani::concrete_playback_run(concrete_vals, c01_q_a1_l1_d1);
 }
@@ -23,14 +23,14 @@ fn kani_concrete_playback_c01_q_a1_l1_d1_12897738365609403309() {
 /// Check for `cover`: "end"
 
 #[test]
-fn kani_concrete_playback_c01_q_a1_l1_d1_11560270321301744565() {
+fn kani_concrete_playback_c01_q_a1_l1_d1_17632470306999957988() {
     let concrete_vals: Vec<Vec<u8>> = vec![
-        // 9
-        vec![9],
+        // 7
+        vec![7],
         // 0
         vec![0],
-        // 3
-        vec![3],
+        // 2
+        vec![2],
     ];
     kani::concrete_playback_run(concrete_vals, c01_q_a1_l1_d1);
 }
